@@ -19,6 +19,7 @@ import NemoVerif.Lemmas.SerializeRefs
 import NemoVerif.Lemmas.SerializeLossy
 import NemoVerif.Lemmas.SerializeShared
 import NemoVerif.Models.CoreVM.Run
+import NemoVerif.Lemmas.CleanUpBisimWrites
 namespace NemoVerif.C11
 open NemoVerif NemoVerif.Serialize NemoVerif.CleanUp
 
@@ -336,7 +337,152 @@ example : removable 10000000 ageMicros []
     { uid := "a", flowId := "f", parent := some "m", children := [], status := .finished, updated := 0,
       activated := 0, actionUids := [], heads := [], scopeFlows := [] } = true := by decide
 
-/-! ## T3 — stated over the whole-interpreter model `CoreVM` (statement only; decided by correspondence) -/
+
+/-! ## T3, the part that is proved: `CoreVM` does not depend on what `_clean_up_state` removes — function by function
+
+`Bisim.Aged rm s s'` (Lemmas/CleanUpBisimFns.lean): `s'` is `s` without the instances `rm`: `flow_states` and the index
+component filtered (both dispatch maps untouched), the remaining records equal up to the dropped uids in `child_flow_uids` /
+scope lists and the time stamp (the aged record is at least as old), `flow_id_states` entries filtered, the action
+table a part of the live one that contains what kept instances refer to, everything else equal, the aged clock later;
+only done instances are in `rm`.  `Bisim.Rel2` = two observations cannot be told apart, `Bisim.Sim2` = two runs end in
+related states with related results (or the same exception).
+
+Status per CoreVM function (the deliverable of phase 4; invariants: I1 = C09 `IndexOK` + `NoPos`, true of every `VM` by
+construction; I2 = `Bisim.ActParentsKept`, the parent of an activated instance is kept — false of the code as it is,
+finding `cleanup-dangling-parent`, established by fixes/C11-cleanup-dangling-parent.diff, checked at run time):
+
+  look-ups `getInst?`/`getInst`/`getInstX?`/`getInstX`/`getCfg` on kept uids, `bucket`    proved (`aged_lookups_agree`, `aged_bucket_eq`)
+  every candidate head belongs to a kept instance                                        proved from I1 (`aged_candidates_are_kept`)
+  `getAllHeadCandidates` (`_get_all_head_candidates`)                                    proved from I1 (`aged_candidates_agree`)
+  `isReferenceActivated`, `isChildActivated` (parent look-ups of activated flows)        proved from I2 (`aged_activation_lookups_agree`)
+  `pushEvent`, `pushLeftEvent`, `modInstX` on a kept uid with a relation-respecting update   proved (`aged_push_event`, `aged_mod_inst`)
+  index writes `setFlowStatus`/`dropHeads`/`clearHeads`/`delHead`/`rmHead` (`applyOp`)    proved (`aged_simple_index_write`)
+  `setFlowStatus` (status + time stamp), `dropHeads` (`heads.clear()` + unregister)      proved (`aged_set_flow_status`, `aged_drop_heads`)
+  `abortFlow`: deactivation loop `for c in x.childFlowUids: getInstX? c`                 needs I2 + `releaseAction`, `failedEvent`/`flowObjOf`, `restartActivated`
+                                                                                         (reads of kept records only: same pattern) — not reached;
+                                                                                         the look-up itself cannot fail newly: the aged child list is the live one filtered
+  `setHeadPos`/`setHeadStatus`/`fork` (`nameFor` → `getEventName`), `handleEventMatching`
+   (`createEventReference` → `getEvent`), `advanceHeadFront`/`slide`, EndScope            need `Rel2` for the expression evaluator (`Eval`, `Events`: reads of
+                                                                                         contexts of kept instances, pattern as for `getAllHeadCandidates`) — not reached
+  `referenceActivatedInstance` (iterates `flow_id_states[id]`, the aged list is filtered) removed entries are skipped (`activated = 0`) — not reached
+  `flowHierarchy` (stops at a discarded ancestor)                                        the two runs DIFFER here (shorter list); its only use is logging — not reached
+  `cleanUpState` itself establishes `Aged` between the live and the aged run            not reached in CoreVM; function level: `cleanup_removes_exactly`,
+                                                                                         `cleanup_frame`, `cleanup_keeps_*` on the `CleanUp` model (tied to the real
+                                                                                         `_clean_up_state` by the clean-up differential)
+-/
+
+section T3proved
+open NemoVerif.CoreVM NemoVerif.CoreIndex NemoVerif.C11.Bisim
+
+/-- look-ups by uid of a kept instance cannot tell the aged state from the live one (records up to `XRel`) -/
+theorem aged_lookups_agree {rm : List FUid} {s s' : VM} (h : Aged rm s s') {f : FUid} (hk : keepB rm f = true) (n : String) :
+    findInst s'.ixs.ix f = findInst s.ixs.ix f ∧
+    Rel2 (XRel rm s.r.clock s'.r.clock) (getInstX f) (getInstX f) s s' ∧
+    Rel2 Eq (getCfg n) (getCfg n) s s' :=
+  ⟨h.findInst_kept hk, h.rel_getInstX hk, h.rel_getCfg n⟩
+
+/-- `state.event_matching_heads.get(name, [])` is the same list -/
+theorem aged_bucket_eq {rm : List FUid} {s s' : VM} (h : Aged rm s s') (nm : String) :
+    bucket s'.ixs.ix nm = bucket s.ixs.ix nm := h.bucket nm
+
+/-- every head the index offers as a candidate belongs to an instance that is kept (C09 `IndexOK`, `NoPos`) -/
+theorem aged_candidates_are_kept {rm : List FUid} {s s' : VM} (h : Aged rm s s') {nm : String} {k : CoreIndex.Key}
+    (hk : k ∈ bucket s.ixs.ix nm) : keepB rm k.1 = true := h.candidate_kept hk
+
+/-- `_get_all_head_candidates`: same candidates in the same order, or the same exception -/
+theorem aged_candidates_agree {rm : List FUid} {s s' : VM} (h : Aged rm s s') (name : String) :
+    Rel2 Eq (getAllHeadCandidates name) (getAllHeadCandidates name) s s' := h.rel_getAllHeadCandidates name
+
+/-- `_is_reference_activated_flow` / `_is_child_activated_flow` — given that parents of activated instances are kept -/
+theorem aged_activation_lookups_agree {rm : List FUid} {s s' : VM} (h : Aged rm s s') (hp : ActParentsKept rm s)
+    {f : FUid} (hk : keepB rm f = true) :
+    Rel2 Eq (isReferenceActivated f) (isReferenceActivated f) s s' ∧ Rel2 Eq (isChildActivated f) (isChildActivated f) s s' :=
+  ⟨h.rel_isReferenceActivated hp hk, h.rel_isChildActivated hp hk⟩
+
+theorem aged_push_event {rm : List FUid} {s s' : VM} (h : Aged rm s s') (e : Event) :
+    Sim2 rm (fun _ _ => True) (pushEvent e) (pushEvent e) s s' ∧ Sim2 rm (fun _ _ => True) (pushLeftEvent e) (pushLeftEvent e) s s' :=
+  ⟨sim_pushEvent h e, sim_pushLeftEvent h e⟩
+
+theorem aged_mod_inst {rm : List FUid} {s s' : VM} (h : Aged rm s s') {f : FUid} (hk : keepB rm f = true) (g g' : InstX → InstX)
+    (hg : ∀ x x', XRel rm s.r.clock s'.r.clock x x' → XRel rm s.r.clock s'.r.clock (g x) (g' x'))
+    (hacts : ∀ x, (g x).actionUids = x.actionUids) :
+    Aged rm { s with r := { s.r with fx := OMap.modify f g s.r.fx } } { s' with r := { s'.r with fx := OMap.modify f g' s'.r.fx } } :=
+  h.modInstX hk g g' hg hacts
+
+theorem aged_simple_index_write {rm : List FUid} {s s' : VM} (h : Aged rm s s') {f : FUid} (hk : keepB rm f = true) {op : Op}
+    (hop : SimpleOpOn f op) : Sim2 rm (fun _ _ => True) (applyOp op) (applyOp op) s s' := sim_applyOp_simple h hk hop
+
+theorem aged_set_flow_status {rm : List FUid} {s s' : VM} (h : Aged rm s s') {f : FUid} (hk : keepB rm f = true) (st : CoreIndex.FlowStatus) :
+    Sim2 rm (fun _ _ => True) (setFlowStatus f st) (setFlowStatus f st) s s' := sim_setFlowStatus h hk st
+
+theorem aged_drop_heads {rm : List FUid} {s s' : VM} (h : Aged rm s s') {f : FUid} (hk : keepB rm f = true) :
+    Sim2 rm (fun _ _ => True) (dropHeads f) (dropHeads f) s s' := sim_dropHeads h hk
+
+/-! non-vacuity: `main` waits on a head, `d` (child of `main`) finished long ago and holds no head; the aged state has
+    lost `d`, `main`'s child list and the `flow_id_states` entry of `sub` are filtered, the clock is 7 s later -/
+def ixLive : IxS :=
+  ((((({} : IxS).apply (.addInst "m" "h0" (some "E")) (by decide)).apply (.addInst "d" "h1" none) (by decide)).apply
+    (.dropHeads "d") (by decide)).apply (.setFlowStatus "d" .finished) (by decide))
+def ixAged : IxS := ixLive.apply (.removeInst "d") (by decide)
+def xm : InstX := { flowId := "main", loopId := some "l", hierPos := "0", childFlowUids := ["d"], statusUpdated := 0 }
+def xd : InstX := { flowId := "sub", loopId := some "l", hierPos := "0.0", parentUid := some "m", statusUpdated := 1 }
+def sLive : VM := { ixs := ixLive, r := { prog := ⟨[]⟩, fx := [("m", xm), ("d", xd)], idStates := [("main", ["m"]), ("sub", ["d"])], clock := 10 } }
+def sAged : VM := { ixs := ixAged, r := { prog := ⟨[]⟩, fx := [("m", { xm with childFlowUids := [] })], idStates := [("main", ["m"]), ("sub", [])], clock := 17 } }
+
+theorem aged_example : Aged ["d"] sLive sAged where
+  insts := by rfl
+  index := by rfl
+  rev := by rfl
+  fxKept := by
+    intro f hk
+    by_cases hm : f = "m"
+    · subst hm
+      exact ⟨by rfl, by decide⟩
+    · have hd : f ≠ "d" := by intro e; subst e; simp [keepB] at hk
+      simp [sLive, sAged, OMap.lookup, ORel, Ne.symm hm, Ne.symm hd]
+  fxGone := by
+    intro f hk
+    have : f = "d" := by simpa [keepB] using hk
+    subst this; rfl
+  fxOrder := by rfl
+  hx := rfl
+  prog := rfl
+  idStates := by rfl
+  actionsSub := by intro u a h; simp [sAged, OMap.lookup] at h
+  actionsKept := by intro f x _ _ au _; rfl
+  queue := rfl
+  outgoing := rfl
+  gctx := rfl
+  events := rfl
+  mainUid := rfl
+  nextUid := rfl
+  choices := rfl
+  choiceLog := rfl
+  lastEvents := rfl
+  cleared := rfl
+  caught := rfl
+  clock := by decide
+  rmDone := by
+    intro u hu i hi
+    have : u = "d" := by simpa using hu
+    subst this
+    have : findInst sLive.ixs.ix "d" = some { uid := "d", status := .finished, heads := [] } := by rfl
+    rw [this] at hi; injection hi with hi; subst hi; rfl
+
+example : ActParentsKept ["d"] sLive := by
+  intro f x hk hl ha p hp
+  by_cases hm : f = "m"
+  · subst hm
+    have : x = xm := by simpa [sLive, OMap.lookup] using hl.symm
+    subst this; cases hp
+  · have hd : f ≠ "d" := by intro e; subst e; simp [keepB] at hk
+    simp [sLive, OMap.lookup, Ne.symm hm, Ne.symm hd] at hl
+
+example : keepB ["d"] "m" = true ∧ SimpleOpOn "m" (.setFlowStatus "m" .started) := ⟨by decide, .inl ⟨_, rfl⟩⟩
+
+end T3proved
+
+/-! ## T3 — the full statement over `CoreVM` (the bisimulation itself is NOT proved; decided by correspondence) -/
 
 section T3
 open NemoVerif.CoreVM
